@@ -228,7 +228,15 @@ def _literal(node):
     try:
         return ast.literal_eval(node)
     except Exception:
-        return _NoLit
+        pass
+    # dict(k=v, ...) with literal values is the literal {k: v, ...}
+    if isinstance(node, ast.Call) and isinstance(node.func, ast.Name) and node.func.id == 'dict' and not node.args \
+            and all(k.arg is not None for k in node.keywords):
+        try:
+            return {k.arg: ast.literal_eval(k.value) for k in node.keywords}
+        except Exception:
+            return _NoLit
+    return _NoLit
 
 
 class _NoLit:
@@ -329,6 +337,13 @@ def _defaulting_ok(fi, a, carrier, stagef):
     if not guards:
         return 'unconditional reassignment'
     t, pol = guards[-1]
+    # the mirrored spelling:  if carrier: <copy>  else: <default>   /   if carrier is not None: ...
+    if isinstance(t, ast.Name) and t.id == carrier:
+        t, pol = ast.UnaryOp(op=ast.Not(), operand=t), not pol
+    elif isinstance(t, ast.Compare) and len(t.ops) == 1 and isinstance(t.ops[0], ast.IsNot) \
+            and isinstance(t.left, ast.Name) and t.left.id == carrier \
+            and isinstance(t.comparators[0], ast.Constant) and t.comparators[0].value is None:
+        t, pol = ast.Compare(left=t.left, ops=[ast.Is()], comparators=t.comparators), not pol
     is_none = isinstance(t, ast.Compare) and len(t.ops) == 1 and isinstance(t.ops[0], ast.Is) \
         and isinstance(t.left, ast.Name) and t.left.id == carrier \
         and isinstance(t.comparators[0], ast.Constant) and t.comparators[0].value is None
